@@ -13,10 +13,9 @@ theorem visit_ell_var (n : Nat) (c : ICtx) (env : Env) (fb : Bindings) (xs : Lis
     (h1 : xs.findIdx? isEll = some (pos + 1)) (h2 : xs[pos]? = some (.id var m))
     (h3 : env.b.get var = some (.list l i)) :
     visit (n + 1) c env fb (.list xs imp) =
-      match mapE (fun x => visit n c env fb x) (xs.take pos ++ l.map (resetAtom m.intro) ++ xs.drop (pos + 2)) with
-      | .error e => .error e
-      | .ok ys => .ok (Sexp.mkList ys imp) := by
-  simp only [visit, h1, h2, h3]
+      bindE (mapE (fun x => visit n c env fb x) (xs.take pos ++ l.map (resetAtom m.intro) ++ xs.drop (pos + 2)))
+        (fun ys => .ok (Sexp.mkList ys imp)) := by
+  simp only [visit, h1, h2, h3, bindE]
   cases mapE (fun x => visit n c env fb x) (xs.take pos ++ l.map (resetAtom m.intro) ++ xs.drop (pos + 2)) <;> rfl
 
 theorem visit_ell_list (n : Nat) (c : ICtx) (env : Env) (fb : Bindings) (xs : List Sexp) (imp : Bool)
@@ -28,10 +27,10 @@ theorem visit_ell_list (n : Nat) (c : ICtx) (env : Env) (fb : Bindings) (xs : Li
               (fun envi => visit n c envi (col.filterMap (fun x => (env.b.get x).map (fun v => (x, v))))
                             (.list sub simp'))) (List.range w) = .ok results) :
     visit (n + 1) c env fb (.list xs imp) =
-      match mapE (fun x => visit n c env fb x) (xs.take pos ++ results ++ xs.drop (pos + 2)) with
-      | .error e => .error e
-      | .ok ys => .ok (Sexp.mkList ys imp) := by
+      bindE (mapE (fun x => visit n c env fb x) (xs.take pos ++ results ++ xs.drop (pos + 2)))
+        (fun ys => .ok (Sexp.mkList ys imp)) := by
   simp only [visit, h1, h2, h3, h4]
+  simp only [bindE]
   cases mapE (fun x => visit n c env fb x) (xs.take pos ++ results ++ xs.drop (pos + 2)) <;> rfl
 
 theorem split_at_many (A B : List Sexp) (t e : Sexp) :
@@ -79,38 +78,39 @@ theorem filterMap_all_some (rounds : List Env) (v : Name) (h : ∀ r ∈ rounds,
 theorem wfMany_wf1 (sub : Pat) (h : wfMany sub = true) : wf1 sub = true := by
   cases sub <;> simp_all [wfMany, wf1]
 
-/-- What `collect_bindings` does at `Many(sub)` followed by one-form patterns, once the match succeeded. -/
-theorem collect_many_facts (sc : List Name) (sub : Pat) (post : List Pat) (mids b : List Sexp) (tot : Nat)
+/-- What `collect_bindings` does at `Many(sub)` followed by one-form patterns `post` (and then `tl`), once the
+match succeeded. -/
+theorem collect_many_facts (sc : List Name) (sub : Pat) (post tl : List Pat) (mids b rem : List Sexp)
+    (tot : Nat) (imp : Bool)
     (e1 e' : Env) (hsubE : Exact1 sub) (hsub : wfMany sub = true) (hnds : sub.vars.Nodup)
     (hpost : wfSimples post = true) (hb : b.length = post.length)
     (hmn : ∀ m ∈ mids, normal m = true) (hmm : ∀ m ∈ mids, matchSingle sc sub m = true)
-    (hc : collectItems mids.length tot false (.many sub :: post) (mids ++ b) e1 = .ok e') :
-    ∃ (rounds : List Env) (e2 : Env), rounds.length = mids.length ∧
+    (hc : collectItems mids.length tot imp (.many sub :: (post ++ tl)) (mids ++ (b ++ rem)) e1 = .ok e') :
+    ∃ (rounds : List Env) (e2 e3 : Env), rounds.length = mids.length ∧
       (∀ (i : Nat) (h : i < mids.length), ∃ r, rounds[i]? = some r ∧ collectOne sub mids[i] {} = .ok r) ∧
-      FrameP sub.vars e1 e2 ∧ collectSimples post b e2 = .ok e' ∧
+      FrameP sub.vars e1 e2 ∧ collectSimples post b e2 = .ok e3 ∧
+      collectItems mids.length tot imp tl rem e3 = .ok e' ∧
       (∀ v ∈ sub.vars, e2.isMany v = true ∧
         e2.b.get v = some (.list (rounds.map (fun r => (r.b.get v).getD Sexp.nil)) false)) ∧
       (∀ r ∈ rounds, ∀ v, r.isMany v = true → e2.isMany v = true) := by
-  have hpostc : ∀ e2, collectItems mids.length tot false post b e2 = collectSimples post b e2 := by
-    intro e2
-    have := collectItems_simples mids.length tot false [] post b [] e2 hpost hb
-    simp only [List.append_nil] at this
-    rw [this]
-    simp only [collectItems_nil]
-    exact bindE_ok_right _
+  have hpostc : ∀ e2, collectItems mids.length tot imp (post ++ tl) (b ++ rem) e2 =
+      bindE (collectSimples post b e2) (fun e => collectItems mids.length tot imp tl rem e) :=
+    fun e2 => collectItems_simples mids.length tot imp tl post b rem e2 hpost hb
   by_cases h0 : mids.length = 0
   · have hm0 : mids = [] := List.length_eq_zero_iff.1 h0
     subst hm0
     simp only [List.length_nil, List.nil_append] at hc hpostc
-    rw [collectItems_many0, hpostc] at hc
-    refine ⟨[], emptyMany e1 sub, rfl, fun i h => by simp at h, emptyMany_frame e1 sub, hc, fun v hv => ?_,
-      fun r hr => by cases hr⟩
+    rw [collectItems_many0, hpostc, bindE_ok_iff] at hc
+    obtain ⟨e3, hc3, hc4⟩ := hc
+    refine ⟨[], emptyMany e1 sub, e3, rfl, fun i h => by simp at h, emptyMany_frame e1 sub, hc3, hc4,
+      fun v hv => ?_, fun r hr => by cases hr⟩
     rw [emptyMany_many, emptyMany_get]
     simp [hv, Sexp.nil]
   · rw [collectItems_manyS _ _ _ _ _ _ _ h0, bindE_ok_iff] at hc
     obtain ⟨rounds, hrounds, hc2⟩ := hc
     simp only [List.take_left', List.drop_left'] at hrounds hc2
-    rw [hpostc] at hc2
+    rw [hpostc, bindE_ok_iff] at hc2
+    obtain ⟨e3, hc3, hc4⟩ := hc2
     obtain ⟨hrl, hrget⟩ := mapE_getElem _ _ _ hrounds
     have hbound : ∀ r ∈ rounds, ∀ v ∈ sub.vars, r.b.get v ≠ none := by
       intro r hr v hv
@@ -122,7 +122,7 @@ theorem collect_many_facts (sc : List Name) (sub : Pat) (post : List Pat) (mids 
       rw [(collectOne_frame sub x {} r hfx).1 k hk]; rfl
     have hne : rounds ≠ [] := by
       intro h; subst h; simp at hrl; omega
-    refine ⟨rounds, finishMany e1 rounds, hrl, hrget, finishMany_frame sub.vars e1 rounds hframes, hc2,
+    refine ⟨rounds, finishMany e1 rounds, e3, hrl, hrget, finishMany_frame sub.vars e1 rounds hframes, hc3, hc4,
       fun v hv => ?_, fun r hr v hmny => ?_⟩
     · have hmem : v ∈ rounds.flatMap (fun r => r.b.map (·.1)) := by
         obtain ⟨r0, hr0⟩ := List.exists_mem_of_ne_nil rounds hne
@@ -136,7 +136,6 @@ theorem collect_many_facts (sc : List Name) (sub : Pat) (post : List Pat) (mids 
         simp only [List.mem_flatMap]
         exact ⟨r, hr, by simpa [Env.isMany, List.contains_iff_mem] using hmny⟩
       simp [this]
-
 
 /-! ### Identifiers of the pattern-as-template -/
 
@@ -306,13 +305,159 @@ theorem mem_orig_keys (env : Env) (col : List Name) (hcol : ∀ x ∈ col, env.b
           simp only [List.filterMap_cons, hg, Option.map_some, List.map_cons, List.mem_cons]
           rw [ih (fun x hx => hcol x (by simp [hx]))]
 
+/-- The visit of a template list `pre… sub ... B…`: the ellipsis is expanded to the matched forms `mids`, then
+every element of the resulting list is visited. -/
+theorem many_visit (sc : List Name) (pre : List Pat) (sub : Pat) (B : List Sexp) (ti : Bool)
+    (mids : List Sexp) (rounds : List Env) (env : Env) (n : Nat) (c : ICtx) (fb : Bindings)
+    (hpre : wfSimples pre = true) (hsub : wfMany sub = true) (hsubE : Exact1 sub) (hnds : sub.vars.Nodup)
+    (hrl : rounds.length = mids.length)
+    (hrget : ∀ (i : Nat) (h : i < mids.length), ∃ r, rounds[i]? = some r ∧ collectOne sub mids[i] {} = .ok r)
+    (henv : ∀ v ∈ sub.vars, env.isMany v = true ∧
+        env.b.get v = some (.list (rounds.map (fun r => (r.b.get v).getD Sexp.nil)) false))
+    (hmanyr : ∀ r ∈ rounds, ∀ v ∈ sub.vars, r.isMany v = true → env.isMany v = true)
+    (hnorm : ∀ m ∈ mids, normal m = true) (hmm : ∀ m ∈ mids, matchSingle sc sub m = true)
+    (hcm : ∀ m ∈ mids, cleanFor env m) (hl : ∀ s ∈ sub.lits, env.b.get s = none)
+    (hdep : ∀ m ∈ mids, m.depth < n) :
+    visit (n + 1) c env fb (.list (pre.map tmpl1 ++ tmpl1 sub :: Sexp.ell :: B) ti) =
+      bindE (mapE (fun x => visit n c env fb x) (pre.map tmpl1 ++ mids ++ B))
+        (fun ys => .ok (Sexp.mkList ys ti)) := by
+  have hfi := findIdx_many pre (tmpl1 sub) B hpre (tmpl1_not_ell sub (Or.inr hsub))
+  obtain ⟨hs1, hs2, hs3⟩ := split_at_many (pre.map tmpl1) B (tmpl1 sub) Sexp.ell
+  simp only [List.length_map] at hs1 hs2 hs3
+  cases sub with
+  | var x0 =>
+      obtain ⟨_, hg0⟩ := henv x0 (by simp [Pat.vars])
+      have hL : rounds.map (fun r => (r.b.get x0).getD Sexp.nil) = mids := by
+        apply List.ext_getElem
+        · simp [hrl]
+        · intro i h1 h2
+          obtain ⟨r, hr1, hr2⟩ := hrget i h2
+          have hri : rounds[i] = r := by
+            have := List.getElem?_eq_getElem (l := rounds) (i := i) (by simpa using h1)
+            rw [this] at hr1
+            exact Option.some.inj hr1
+          simp only [collectOne] at hr2
+          have hr3 : r = ({} : Env).insert x0 mids[i] := by cases hr2; rfl
+          simp only [List.getElem_map, hri, hr3, get_env_insert]
+          simp
+      rw [hL] at hg0
+      simp only [tmpl1] at hs1 hs2 hs3 hfi ⊢
+      rw [visit_ell_var n c env fb _ ti pre.length x0 Mark.plain mids false hfi hs2 hg0, hs1, hs3]
+      have hpl : ∀ x ∈ mids, x.isPlain = true := fun x hx => (hcm x hx).2.2.1
+      simp only [Mark.plain]
+      rw [map_resetAtom_plain mids hpl]
+  | nested qs' =>
+      simp only [tmpl1] at hs1 hs2 hs3 hfi ⊢
+      have hspec : ∀ a0 ∈ (Sexp.list (tmplList qs') (lastIsRest qs')).ids, bnd env a0 = true →
+          ∃ l i, env.b.get a0 = some (.list l i) ∧ l.length = mids.length := by
+        intro a0 ha0 hb0
+        cases tmpl_ids_sub (.nested qs') a0 (by simpa [tmpl1] using ha0) with
+        | inl hv =>
+            obtain ⟨_, hg⟩ := henv a0 hv
+            exact ⟨_, _, hg, by simp [hrl]⟩
+        | inr hlit =>
+            have := hl a0 hlit
+            exact absurd this (bnd_bound env a0 hb0)
+      have hfw := findWidth_spec env mids.length _ none [] hspec (Or.inl rfl)
+      -- at least one variable drives the iteration
+      obtain ⟨v0, hv0⟩ : ∃ v0, v0 ∈ (Pat.nested qs').vars := by
+        simp only [wfMany, Bool.and_eq_true, Bool.not_eq_true', List.isEmpty_eq_false_iff] at hsub
+        obtain ⟨v0, hv0⟩ := List.exists_mem_of_ne_nil _ hsub.2
+        exact ⟨v0, by simpa [Pat.vars] using hv0⟩
+      have hv0b : bnd env v0 = true := by
+        obtain ⟨hm0, hg0⟩ := henv v0 hv0
+        exact bnd_of env v0 _ _ hg0 hm0
+      have hv0i : v0 ∈ (Sexp.list (tmplList qs') (lastIsRest qs')).ids := by
+        have := vars_sub_tmpl_ids (.nested qs') v0 hv0
+        simpa [tmpl1] using this
+      have hne : ((Sexp.list (tmplList qs') (lastIsRest qs')).ids.filter (bnd env)).isEmpty = false := by
+        rw [List.isEmpty_eq_false_iff]
+        intro hnil
+        have : v0 ∈ (Sexp.list (tmplList qs') (lastIsRest qs')).ids.filter (bnd env) :=
+          List.mem_filter.2 ⟨hv0i, hv0b⟩
+        rw [hnil] at this
+        cases this
+      simp only [hne, Bool.false_eq_true, if_false, List.nil_append] at hfw
+      generalize hcol : (Sexp.list (tmplList qs') (lastIsRest qs')).ids.filter (bnd env) = col at hfw
+      have hcolb : ∀ x ∈ col, bnd env x = true := by
+        intro x hx; rw [← hcol] at hx; exact (List.mem_filter.1 hx).2
+      have hcolv : ∀ v ∈ (Pat.nested qs').vars, v ∈ col := by
+        intro v hv
+        rw [← hcol]
+        obtain ⟨hm0, hg0⟩ := henv v hv
+        exact List.mem_filter.2 ⟨by simpa [tmpl1] using vars_sub_tmpl_ids (.nested qs') v hv,
+          bnd_of env v _ _ hg0 hm0⟩
+      have hcoll : ∀ x ∈ col, ∃ l i, env.b.get x = some (.list l i) ∧ l.length = mids.length := by
+        intro x hx
+        have hx' : x ∈ (Sexp.list (tmplList qs') (lastIsRest qs')).ids := by
+          rw [← hcol] at hx; exact (List.mem_filter.1 hx).1
+        exact hspec x hx' (hcolb x hx)
+      -- every iteration gives back the matched form
+      have hiter : ∀ i ∈ List.range mids.length,
+          bindE (iterEnv env i (col.filterMap (fun x => (env.b.get x).map (fun w => (x, w)))))
+            (fun envi => visit n c envi (col.filterMap (fun x => (env.b.get x).map (fun w => (x, w))))
+              (Sexp.list (tmplList qs') (lastIsRest qs'))) = .ok (mids.getD i Sexp.nil) := by
+        intro i hi
+        have hi' : i < mids.length := by simpa using hi
+        obtain ⟨envi, hie, himany, higet⟩ := iterEnv_spec env i
+          (col.filterMap (fun x => (env.b.get x).map (fun w => (x, w)))) env (by
+            intro kv hkv
+            simp only [List.mem_filterMap] at hkv
+            obtain ⟨x, hx, hxe⟩ := hkv
+            obtain ⟨l, ii, hg, hll⟩ := hcoll x hx
+            rw [hg] at hxe
+            simp only [Option.map_some, Option.some.injEq] at hxe
+            subst hxe
+            exact ⟨l, ii, rfl, hg, by omega⟩)
+        rw [hie]
+        simp only [bindE_ok]
+        obtain ⟨r, hr1, hr2⟩ := hrget i hi'
+        have hmi : mids[i] ∈ mids := List.getElem_mem hi'
+        have hE := hsubE (wfMany_wf1 _ hsub) hnds mids[i] sc {} r (hnorm _ hmi) (hmm _ hmi) hr2
+        have hkeys := mem_orig_keys env col (fun x hx => bnd_bound env x (hcolb x hx))
+        have hrmem : r ∈ rounds := List.mem_of_getElem? hr1
+        have hget_i : ∀ v ∈ (Pat.nested qs').vars, envi.b.get v = r.b.get v := by
+          intro v hv
+          rw [higet v]
+          simp only [(hkeys v).2 (hcolv v hv), if_true, (henv v hv).2]
+          rw [List.getElem?_map, hr1]
+          have := hE.1 v hv
+          cases hrv : r.b.get v with
+          | none => exact absurd hrv this
+          | some w => simp [hrv]
+        have hnone : ∀ k, env.b.get k = none → envi.b.get k = none := by
+          intro k hk
+          rw [higet k]
+          have : k ∉ (col.filterMap (fun x => (env.b.get x).map (fun w => (x, w)))).map (·.1) := by
+            intro hmem
+            exact bnd_bound env k (hcolb k ((hkeys k).1 hmem)) hk
+          simp [this, hk]
+        have hvis := hE.2 envi n c (col.filterMap (fun x => (env.b.get x).map (fun w => (x, w))))
+          (fun v hv => ⟨hget_i v hv, fun hmny => by
+            have h3 := hmanyr r hrmem v hv hmny
+            simpa [Env.isMany, himany] using h3⟩)
+          (cleanFor_of_keys env envi _ (hcm _ hmi) hnone)
+          (fun s hs => hnone s (hl s hs))
+          (hdep _ hmi)
+        simp only [tmpl1] at hvis
+        rw [hvis]
+        simp [hi']
+      have hres := mapE_fn _ (fun i => mids.getD i Sexp.nil) (List.range mids.length) hiter
+      rw [range_map_getD] at hres
+      rw [visit_ell_list n c env fb _ ti pre.length _ _ mids.length col mids hfi hs2 hfw hres, hs1, hs3]
+  | lit s => simp [wfMany] at hsub
+  | kwlit s => simp [wfMany] at hsub
+  | cint s => simp [wfMany] at hsub
+  | cbool s => simp [wfMany] at hsub
+  | many s => simp [wfMany] at hsub
+  | rest s => simp [wfMany] at hsub
+
 theorem nested_many (pre : List Pat) (sub : Pat) (post : List Pat)
     (hallpre : ∀ q ∈ pre, Exact1 q) (hsubE : Exact1 sub) (hallpost : ∀ q ∈ post, Exact1 q)
     (hpre : wfSimples pre = true) (hsub : wfMany sub = true) (hpost : wfSimples post = true) :
-    Exact1 (.nested (pre ++ .many sub :: post)) := by
-  intro hw hnd f sc env0 e' hnf hm hc
-  cases f with
-  | list xs imp =>
+    ExactL ((pre ++ .many sub :: post)) := by
+  intro hnd xs imp sc env0 e' hnf hm hc
+  focus
     obtain ⟨himp, hlen, hms1, hallm, hms3⟩ := match_many_facts sc pre sub post xs imp hpre hpost hnf hm
     subst himp
     have ha := matchSimples_length sc pre _ hms1
@@ -331,26 +476,25 @@ theorem nested_many (pre : List Pat) (sub : Pat) (post : List Pat)
     have hnorm : ∀ x ∈ a ++ (mids ++ b), normal x = true := fun x hx => normal_mem _ x hx hnl
     -- collect
     rw [collectOne_nested_list] at hc
-    have hnot : ¬ (a ++ (mids ++ b)).length + 1 < (pre ++ Pat.many sub :: post).length := by
-      simp; omega
-    have hexp : (a ++ (mids ++ b)).length + 1 - (pre ++ Pat.many sub :: post).length = mids.length := by
-      simp; omega
-    simp only [hnot, if_false, hexp] at hc
-    rw [collectItems_simples _ _ _ _ pre a _ _ hpre hal, bindE_ok_iff] at hc
+    have hexp : expectedCaptures (pre ++ Pat.many sub :: post) (a ++ (mids ++ b)).length false = mids.length := by
+      simp [expectedCaptures, lastIsRest_append_many pre sub post hpost]; omega
+    rw [hexp, collectItems_simples _ _ _ _ pre a _ _ hpre hal, bindE_ok_iff] at hc
     obtain ⟨e1, hcs, hc2⟩ := hc
     simp only [Pat.vars, varsList_append, Pat.varsList] at hnd ⊢
     have hnd1 := List.nodup_append.1 hnd
     have hnd2 := List.nodup_append.1 hnd1.2.1
-    obtain ⟨rounds, e2, hrl, hrget, hF2, hcp, hvars2, hmany2⟩ :=
-      collect_many_facts sc sub post mids b _ e1 e' hsubE hsub hnd2.1 hpost hbl
-        (fun m hm' => hnorm m (by simp [hm'])) hallm' hc2
-    have hFpost := collectSimples_frame post b e2 e' hcp
-    have hF1 : FrameP (sub.vars ++ Pat.varsList post) e1 e' := hF2.trans hFpost
+    obtain ⟨rounds, e2, e3, hrl, hrget, hF2, hcp, hctl, hvars2, hmany2⟩ :=
+      collect_many_facts sc sub post [] mids b [] _ false e1 e' hsubE hsub hnd2.1 hpost hbl
+        (fun m hm' => hnorm m (by simp [hm'])) hallm' (by simpa using hc2)
+    have he3 : e3 = e' := by simpa [collectItems_nil] using hctl
+    subst he3
+    have hFpost := collectSimples_frame post b e2 e3 hcp
+    have hF1 : FrameP (sub.vars ++ Pat.varsList post) e1 e3 := hF2.trans hFpost
     have SVpre := simples_visit sc pre a env0 e1 hpre hallpre (fun x hx => hnorm x (by simp [hx])) hms1' hcs
-      (sub.vars ++ Pat.varsList post) e' hF1 (fun v hv h => hnd1.2.2 v hv v h rfl) hnd1.1
-    have SVpost := simples_visit sc post b e2 e' hpost hallpost (fun x hx => hnorm x (by simp [hx])) hms3' hcp
-      [] e' (FrameP.refl _ _) (fun v _ h => by cases h) hnd2.2.1
-    have hsubv : ∀ v ∈ sub.vars, e'.b.get v = e2.b.get v ∧ (e2.isMany v = true → e'.isMany v = true) := by
+      (sub.vars ++ Pat.varsList post) e3 hF1 (fun v hv h => hnd1.2.2 v hv v h rfl) hnd1.1
+    have SVpost := simples_visit sc post b e2 e3 hpost hallpost (fun x hx => hnorm x (by simp [hx])) hms3' hcp
+      [] e3 (FrameP.refl _ _) (fun v _ h => by cases h) hnd2.2.1
+    have hsubv : ∀ v ∈ sub.vars, e3.b.get v = e2.b.get v ∧ (e2.isMany v = true → e3.isMany v = true) := by
       intro v hv
       exact ⟨hFpost.1 v (fun h => hnd2.2.2 v hv v h rfl), hFpost.2 v⟩
     refine ⟨fun v hv => ?_, fun env n c fb hA hcl hl hd => ?_⟩
@@ -367,7 +511,6 @@ theorem nested_many (pre : List Pat) (sub : Pat) (post : List Pat)
           have := depth_le_depthList _ x hx; omega
         have hcm := cleanFor_mem env _ false hcl
         simp only [Pat.lits, litsList_append, Pat.litsList, List.mem_append] at hl
-        -- what `env` says about the variables under the ellipsis
         have henv : ∀ v ∈ sub.vars, env.isMany v = true ∧
             env.b.get v = some (.list (rounds.map (fun r => (r.b.get v).getD Sexp.nil)) false) := by
           intro v hv
@@ -375,7 +518,6 @@ theorem nested_many (pre : List Pat) (sub : Pat) (post : List Pat)
           obtain ⟨k1, k2⟩ := hsubv v hv
           obtain ⟨m1, m2⟩ := hvars2 v hv
           exact ⟨g2 (k2 m1), by rw [g1, k1, m2]⟩
-        -- the three parts of the expanded list
         have hApre := SVpre.2 env n c fb (fun v hv => hA v (by simp [hv])) (fun x hx => hcm x (by simp [hx]))
           (fun s hs => hl s (Or.inl hs)) (fun x hx => hdep x (by simp [hx]))
         have hApost := SVpost.2 env n c fb (fun v hv => hA v (by simp [hv])) (fun x hx => hcm x (by simp [hx]))
@@ -385,149 +527,216 @@ theorem nested_many (pre : List Pat) (sub : Pat) (post : List Pat)
             (hcm x (by simp [hx])))
         have hAll : mapE (fun x => visit n c env fb x) (pre.map tmpl1 ++ mids ++ post.map tmpl1) =
             .ok (a ++ mids ++ b) := mapE_append _ _ _ _ _ (mapE_append _ _ _ _ _ hApre hMid) hApost
-        -- the template
         simp only [tmpl1, tmplList_append_simples pre _ hpre, lastIsRest_append_many pre sub post hpost, tmplList,
           tmplList_simples post hpost]
-        have hfi := findIdx_many pre (tmpl1 sub) (post.map tmpl1) hpre (tmpl1_not_ell sub (Or.inr hsub))
-        obtain ⟨hs1, hs2, hs3⟩ := split_at_many (pre.map tmpl1) (post.map tmpl1) (tmpl1 sub) Sexp.ell
-        simp only [List.length_map] at hs1 hs2 hs3
-        cases sub with
-        | var x0 =>
-            obtain ⟨_, hg0⟩ := henv x0 (by simp [Pat.vars])
-            have hL : rounds.map (fun r => (r.b.get x0).getD Sexp.nil) = mids := by
-              apply List.ext_getElem
-              · simp [hrl]
-              · intro i h1 h2
-                obtain ⟨r, hr1, hr2⟩ := hrget i h2
-                have hri : rounds[i] = r := by
-                  have := List.getElem?_eq_getElem (l := rounds) (i := i) (by simpa using h1)
-                  rw [this] at hr1
-                  exact Option.some.inj hr1
-                simp only [collectOne] at hr2
-                have hr3 : r = ({} : Env).insert x0 mids[i] := by cases hr2; rfl
-                simp only [List.getElem_map, hri, hr3, get_env_insert]
-                simp
-            rw [hL] at hg0
-            simp only [tmpl1] at hs1 hs2 hs3 hfi ⊢
-            rw [visit_ell_var n c env fb _ false pre.length x0 Mark.plain mids false hfi hs2 hg0, hs1, hs3]
-            have hpl : ∀ x ∈ mids, x.isPlain = true := fun x hx => (hcm x (by simp [hx])).2.2.1
-            simp only [Mark.plain]
-            rw [map_resetAtom_plain mids hpl, hAll]
-            simp [Sexp.mkList, List.append_assoc]
-        | nested qs' =>
-            simp only [tmpl1] at hs1 hs2 hs3 hfi ⊢
-            have hspec : ∀ a0 ∈ (Sexp.list (tmplList qs') (lastIsRest qs')).ids, bnd env a0 = true →
-                ∃ l i, env.b.get a0 = some (.list l i) ∧ l.length = mids.length := by
-              intro a0 ha0 hb0
-              cases tmpl_ids_sub (.nested qs') a0 (by simpa [tmpl1] using ha0) with
-              | inl hv =>
-                  obtain ⟨_, hg⟩ := henv a0 hv
-                  exact ⟨_, _, hg, by simp [hrl]⟩
-              | inr hlit =>
-                  have := hl a0 (Or.inr (Or.inl hlit))
-                  exact absurd this (bnd_bound env a0 hb0)
-            have hfw := findWidth_spec env mids.length _ none [] hspec (Or.inl rfl)
-            -- at least one variable drives the iteration
-            obtain ⟨v0, hv0⟩ : ∃ v0, v0 ∈ (Pat.nested qs').vars := by
-              simp only [wfMany, Bool.and_eq_true, Bool.not_eq_true', List.isEmpty_eq_false_iff] at hsub
-              obtain ⟨v0, hv0⟩ := List.exists_mem_of_ne_nil _ hsub.2
-              exact ⟨v0, by simpa [Pat.vars] using hv0⟩
-            have hv0b : bnd env v0 = true := by
-              obtain ⟨hm0, hg0⟩ := henv v0 hv0
-              exact bnd_of env v0 _ _ hg0 hm0
-            have hv0i : v0 ∈ (Sexp.list (tmplList qs') (lastIsRest qs')).ids := by
-              have := vars_sub_tmpl_ids (.nested qs') v0 hv0
-              simpa [tmpl1] using this
-            have hne : ((Sexp.list (tmplList qs') (lastIsRest qs')).ids.filter (bnd env)).isEmpty = false := by
-              rw [List.isEmpty_eq_false_iff]
-              intro hnil
-              have : v0 ∈ (Sexp.list (tmplList qs') (lastIsRest qs')).ids.filter (bnd env) :=
-                List.mem_filter.2 ⟨hv0i, hv0b⟩
-              rw [hnil] at this
-              cases this
-            simp only [hne, Bool.false_eq_true, if_false, List.nil_append] at hfw
-            generalize hcol : (Sexp.list (tmplList qs') (lastIsRest qs')).ids.filter (bnd env) = col at hfw
-            have hcolb : ∀ x ∈ col, bnd env x = true := by
-              intro x hx; rw [← hcol] at hx; exact (List.mem_filter.1 hx).2
-            have hcolv : ∀ v ∈ (Pat.nested qs').vars, v ∈ col := by
-              intro v hv
-              rw [← hcol]
-              obtain ⟨hm0, hg0⟩ := henv v hv
-              exact List.mem_filter.2 ⟨by simpa [tmpl1] using vars_sub_tmpl_ids (.nested qs') v hv,
-                bnd_of env v _ _ hg0 hm0⟩
-            have hcoll : ∀ x ∈ col, ∃ l i, env.b.get x = some (.list l i) ∧ l.length = mids.length := by
-              intro x hx
-              have hx' : x ∈ (Sexp.list (tmplList qs') (lastIsRest qs')).ids := by
-                rw [← hcol] at hx; exact (List.mem_filter.1 hx).1
-              exact hspec x hx' (hcolb x hx)
-            -- every iteration gives back the matched form
-            have hiter : ∀ i ∈ List.range mids.length,
-                bindE (iterEnv env i (col.filterMap (fun x => (env.b.get x).map (fun w => (x, w)))))
-                  (fun envi => visit n c envi (col.filterMap (fun x => (env.b.get x).map (fun w => (x, w))))
-                    (Sexp.list (tmplList qs') (lastIsRest qs'))) = .ok (mids.getD i Sexp.nil) := by
-              intro i hi
-              have hi' : i < mids.length := by simpa using hi
-              obtain ⟨envi, hie, himany, higet⟩ := iterEnv_spec env i
-                (col.filterMap (fun x => (env.b.get x).map (fun w => (x, w)))) env (by
-                  intro kv hkv
-                  simp only [List.mem_filterMap] at hkv
-                  obtain ⟨x, hx, hxe⟩ := hkv
-                  obtain ⟨l, ii, hg, hll⟩ := hcoll x hx
-                  rw [hg] at hxe
-                  simp only [Option.map_some, Option.some.injEq] at hxe
-                  subst hxe
-                  exact ⟨l, ii, rfl, hg, by omega⟩)
-              rw [hie]
-              simp only [bindE_ok]
-              obtain ⟨r, hr1, hr2⟩ := hrget i hi'
-              have hmi : mids[i] ∈ mids := List.getElem_mem hi'
-              have hE := hsubE (wfMany_wf1 _ hsub) hnd2.1 mids[i] sc {} r (hnorm _ (by simp [hmi]))
-                (hallm' _ hmi) hr2
-              have hkeys := mem_orig_keys env col (fun x hx => bnd_bound env x (hcolb x hx))
-              have hrmem : r ∈ rounds := List.mem_of_getElem? hr1
-              have hget_i : ∀ v ∈ (Pat.nested qs').vars, envi.b.get v = r.b.get v := by
-                intro v hv
-                rw [higet v]
-                simp only [(hkeys v).2 (hcolv v hv), if_true, (henv v hv).2]
-                rw [List.getElem?_map, hr1]
-                have := hE.1 v hv
-                cases hrv : r.b.get v with
-                | none => exact absurd hrv this
-                | some w => simp [hrv]
-              have hnone : ∀ k, env.b.get k = none → envi.b.get k = none := by
-                intro k hk
-                rw [higet k]
-                have : k ∉ (col.filterMap (fun x => (env.b.get x).map (fun w => (x, w)))).map (·.1) := by
-                  intro hmem
-                  exact bnd_bound env k (hcolb k ((hkeys k).1 hmem)) hk
-                simp [this, hk]
-              have hvis := hE.2 envi n c (col.filterMap (fun x => (env.b.get x).map (fun w => (x, w))))
-                (fun v hv => ⟨hget_i v hv, fun hmny => by
-                  have h1 := hmany2 r hrmem v hmny
-                  have h2 := (hsubv v hv).2 h1
-                  have h3 := (hA v (by simp [hv])).2 h2
-                  simpa [Env.isMany, himany] using h3⟩)
-                (cleanFor_of_keys env envi _ (hcm _ (by simp [hmi])) hnone)
-                (fun s hs => hnone s (hl s (Or.inr (Or.inl hs))))
-                (hdep _ (by simp [hmi]))
-              simp only [tmpl1] at hvis
-              rw [hvis]
-              simp [hi']
-            have hres := mapE_fn _ (fun i => mids.getD i Sexp.nil) (List.range mids.length) hiter
-            rw [range_map_getD] at hres
-            rw [visit_ell_list n c env fb _ false pre.length _ _ mids.length col mids hfi hs2 hfw hres, hs1, hs3,
-              hAll]
-            simp [Sexp.mkList, List.append_assoc]
-        | lit s => simp [wfMany] at hsub
-        | kwlit s => simp [wfMany] at hsub
-        | cint s => simp [wfMany] at hsub
-        | cbool s => simp [wfMany] at hsub
-        | many s => simp [wfMany] at hsub
-        | rest s => simp [wfMany] at hsub
-  | id a b => rw [match_nested_nonlist sc _ _ hw (by intro xs imp h; cases h)] at hm; cases hm
-  | kw a => rw [match_nested_nonlist sc _ _ hw (by intro xs imp h; cases h)] at hm; cases hm
-  | int a => rw [match_nested_nonlist sc _ _ hw (by intro xs imp h; cases h)] at hm; cases hm
-  | bool a => rw [match_nested_nonlist sc _ _ hw (by intro xs imp h; cases h)] at hm; cases hm
+        rw [many_visit sc pre sub (post.map tmpl1) false mids rounds env n c fb hpre hsub hsubE hnd2.1 hrl hrget henv
+          (fun r hr v hv hmny => (hA v (by simp [hv])).2 ((hsubv v hv).2 (hmany2 r hr v hmny)))
+          (fun m hm' => hnorm m (by simp [hm'])) hallm' (fun m hm' => hcm m (by simp [hm']))
+          (fun s hs => hl s (Or.inr (Or.inl hs))) (fun m hm' => hdep m (by simp [hm'])), hAll]
+        simp [Sexp.mkList, List.append_assoc]
+
+/-! ### An ellipsis followed by one-form patterns and a dotted tail -/
+
+theorem lastIsRest_many_rest (pre : List Pat) (sub : Pat) (post : List Pat) (r : Name) :
+    lastIsRest (pre ++ Pat.many sub :: (post ++ [Pat.rest (Pat.var r)])) = true := by
+  have : pre ++ Pat.many sub :: (post ++ [Pat.rest (Pat.var r)]) =
+      (pre ++ Pat.many sub :: post) ++ [Pat.rest (Pat.var r)] := by simp
+  rw [this]
+  exact lastIsRest_append_rest _ _
+
+theorem match_many_rest_facts (sc : List Name) (pre : List Pat) (sub : Pat) (post : List Pat) (r : Name)
+    (xs : List Sexp) (imp : Bool) (hpre : wfSimples pre = true) (hpost : wfSimples post = true)
+    (hm : matchSingle sc (.nested (pre ++ .many sub :: (post ++ [Pat.rest (Pat.var r)]))) (.list xs imp) = true) :
+    pre.length + post.length ≤ (if imp then xs.dropLast else xs).length ∧
+      matchSimples sc pre ((if imp then xs.dropLast else xs).take pre.length) = true ∧
+      (∀ m ∈ (((if imp then xs.dropLast else xs)).drop pre.length).take
+          ((if imp then xs.dropLast else xs).length - (pre.length + post.length)), matchSingle sc sub m = true) ∧
+      matchSimples sc post ((((if imp then xs.dropLast else xs)).drop pre.length).drop
+          ((if imp then xs.dropLast else xs).length - (pre.length + post.length))) = true := by
+  simp only [matchSingle] at hm
+  split at hm
+  · cases hm
+  · rename_i ex un px heq
+    obtain ⟨hpx, hex, hun, hlen⟩ := matchPre_spec _ _ _ _ _ _ heq
+    rw [← hpx]
+    simp only [lastIsRest_many_rest, any_many_append, Bool.true_or, if_true, List.length_append,
+      List.length_cons, List.length_nil] at hex hun hlen
+    by_cases hshort : px.length < pre.length
+    · rw [matchItems_short _ _ _ _ _ pre _ hpre hshort] at hm
+      cases hm
+    · have hle : pre.length ≤ px.length := by omega
+      have hsplit : px = px.take pre.length ++ px.drop pre.length := by simp
+      rw [hsplit, matchItems_simples _ _ _ _ _ pre _ _ hpre (by simp [hle]), matchItems_many] at hm
+      simp only [Bool.and_eq_true, decide_eq_true_eq, List.all_eq_true, List.length_drop] at hm
+      obtain ⟨hm1, ⟨hexle, hall⟩, hm3⟩ := hm
+      have hex' : ex = px.length - (pre.length + post.length) := by omega
+      have hpostlen : ((px.drop pre.length).drop ex).length = post.length := by
+        simp only [List.length_drop]
+        omega
+      have hsplit2 := matchItems_simples sc ex un imp [Pat.rest (Pat.var r)] post ((px.drop pre.length).drop ex) []
+        hpost hpostlen
+      simp only [List.append_nil] at hsplit2
+      rw [hsplit2] at hm3
+      simp only [Bool.and_eq_true] at hm3
+      subst hex'
+      exact ⟨by omega, hm1, hall, hm3.1⟩
+
+
+theorem restVal_plain (rem : List Sexp) (imp : Bool) (tot : Nat) (h : ∀ x ∈ rem, x.isPlain = true) :
+    (restVal rem imp tot).isPlain = true := by
+  cases rem with
+  | nil => rfl
+  | cons e rest =>
+      simp only [restVal]
+      split
+      · exact h e (by simp)
+      · simp only [Sexp.isPlain]
+        exact isPlainList_of_all _ h
+
+theorem nested_many_rest (pre : List Pat) (sub : Pat) (post : List Pat) (r : Name)
+    (hallpre : ∀ q ∈ pre, Exact1 q) (hsubE : Exact1 sub) (hallpost : ∀ q ∈ post, Exact1 q)
+    (hpre : wfSimples pre = true) (hsub : wfMany sub = true) (hpost : wfSimples post = true)
+    (hr : r ≠ wildcard) :
+    ExactL ((pre ++ .many sub :: (post ++ [Pat.rest (Pat.var r)]))) := by
+  intro hnd xs imp sc env0 e' hnf hm hc
+  focus
+    obtain ⟨hlen, hms1, hallm, hms3⟩ := match_many_rest_facts sc pre sub post r xs imp hpre hpost hm
+    have hpxlen : (if imp = true then xs.dropLast else xs).length = (if imp = true then xs.length - 1 else xs.length) := by
+      cases imp <;> simp
+    have hxsplit : xs = (if imp = true then xs.dropLast else xs) ++
+        xs.drop (if imp = true then xs.dropLast else xs).length := by
+      cases imp with
+      | false => simp
+      | true => simp [List.dropLast_eq_take]
+    have hremne : imp = true → xs.drop (if imp = true then xs.dropLast else xs).length ≠ [] := by
+      intro hi
+      subst hi
+      have h2 := normal_improper_len xs hnf
+      intro hnil
+      have := congrArg List.length hnil
+      simp at this
+      omega
+    generalize hpx : (if imp = true then xs.dropLast else xs) = px at hlen hms1 hallm hms3 hpxlen hxsplit hremne
+    generalize hrem : xs.drop px.length = rem at hxsplit hremne
+    have ha := matchSimples_length sc pre _ hms1
+    have hb := matchSimples_length sc post _ hms3
+    obtain ⟨a, mids, b, hpxs, hal, hbl, hms1', hallm', hms3'⟩ :
+        ∃ a mids b, px = a ++ (mids ++ b) ∧ a.length = pre.length ∧ b.length = post.length ∧
+          matchSimples sc pre a = true ∧ (∀ m ∈ mids, matchSingle sc sub m = true) ∧
+          matchSimples sc post b = true :=
+      ⟨px.take pre.length, (px.drop pre.length).take (px.length - (pre.length + post.length)),
+        (px.drop pre.length).drop (px.length - (pre.length + post.length)),
+        by rw [List.take_append_drop, List.take_append_drop], ha, hb, hms1, hallm, hms3⟩
+    clear hms1 hallm hms3 ha hb hpx hrem
+    subst hpxs
+    have hxs : xs = a ++ (mids ++ (b ++ rem)) := by rw [hxsplit]; simp [List.append_assoc]
+    clear hxsplit
+    subst hxs
+    have hnl : normalList (a ++ (mids ++ (b ++ rem))) = true := by
+      simp only [normal, Bool.and_eq_true] at hnf; exact hnf.1
+    have hnorm : ∀ x ∈ a ++ (mids ++ (b ++ rem)), normal x = true := fun x hx => normal_mem _ x hx hnl
+    -- collect
+    rw [collectOne_nested_list] at hc
+    have hexp : expectedCaptures (pre ++ Pat.many sub :: (post ++ [Pat.rest (Pat.var r)]))
+        (a ++ (mids ++ (b ++ rem))).length imp = mids.length := by
+      simp only [expectedCaptures, lastIsRest_many_rest, if_true]
+      rw [← hpxlen]
+      simp
+      omega
+    rw [hexp, collectItems_simples _ _ _ _ pre a _ _ hpre hal, bindE_ok_iff] at hc
+    obtain ⟨e1, hcs, hc2⟩ := hc
+    simp only [Pat.vars, varsList_append, Pat.varsList, List.append_nil] at hnd ⊢
+    have hnd1 := List.nodup_append.1 hnd
+    have hnd2 := List.nodup_append.1 hnd1.2.1
+    have hnd3 := List.nodup_append.1 hnd2.2.1
+    obtain ⟨rounds, e2, e3, hrl, hrget, hF2, hcp, hctl, hvars2, hmany2⟩ :=
+      collect_many_facts sc sub post [Pat.rest (Pat.var r)] mids b rem _ imp e1 e' hsubE hsub hnd2.1 hpost hbl
+        (fun m hm' => hnorm m (by simp [hm'])) hallm' hc2
+    rw [collectItems_rest, bindE_ok_iff] at hctl
+    obtain ⟨e4, hc3, hc4⟩ := hctl
+    simp only [collectItems_nil] at hc4
+    simp only [collectOne] at hc3
+    cases hc3
+    cases hc4
+    generalize hrv : restVal rem imp (a ++ (mids ++ (b ++ rem))).length = rv
+    have hFr : FrameP [r] e3 (e3.insert r rv) := by
+      refine ⟨fun k hk => ?_, fun k hk => hk⟩
+      have : ¬ r = k := fun h => hk (by simp [h])
+      simp [get_env_insert, this]
+    have hFpost := collectSimples_frame post b e2 e3 hcp
+    have hF1 : FrameP (sub.vars ++ (Pat.varsList post ++ [r])) e1 (e3.insert r rv) := hF2.trans (hFpost.trans hFr)
+    have SVpre := simples_visit sc pre a env0 e1 hpre hallpre (fun x hx => hnorm x (by simp [hx])) hms1' hcs
+      (sub.vars ++ (Pat.varsList post ++ [r])) (e3.insert r rv) hF1 (fun v hv h => hnd1.2.2 v hv v h rfl) hnd1.1
+    have SVpost := simples_visit sc post b e2 e3 hpost hallpost (fun x hx => hnorm x (by simp [hx])) hms3' hcp
+      [r] (e3.insert r rv) hFr (fun v hv h => hnd3.2.2 v hv v h rfl) hnd3.1
+    have hsubv : ∀ v ∈ sub.vars, (e3.insert r rv).b.get v = e2.b.get v ∧
+        (e2.isMany v = true → (e3.insert r rv).isMany v = true) := by
+      intro v hv
+      have hvr : v ∉ [r] := fun h => hnd2.2.2 v hv v (by simp [List.mem_singleton.1 h]) rfl
+      have hvp : v ∉ Pat.varsList post := fun h => hnd2.2.2 v hv v (by simp [h]) rfl
+      exact ⟨by rw [hFr.1 v hvr, hFpost.1 v hvp], fun h => hFr.2 v (hFpost.2 v h)⟩
+    refine ⟨fun v hv => ?_, fun env n c fb hA hcl hl hd => ?_⟩
+    · simp only [List.mem_append, List.mem_singleton] at hv
+      rcases hv with h | h | h | h
+      · exact SVpre.1 v h
+      · rw [(hsubv v h).1, (hvars2 v h).2]; simp
+      · exact SVpost.1 v h
+      · subst h; simp [get_env_insert]
+    · cases n with
+      | zero => omega
+      | succ n =>
+        have hdl : Sexp.depthList (a ++ (mids ++ (b ++ rem))) < n := by simp only [Sexp.depth] at hd; omega
+        have hdep : ∀ x ∈ a ++ (mids ++ (b ++ rem)), x.depth < n := fun x hx => by
+          have := depth_le_depthList _ x hx; omega
+        have hcm := cleanFor_mem env _ imp hcl
+        simp only [Pat.lits, litsList_append, Pat.litsList, List.mem_append] at hl
+        have henv : ∀ v ∈ sub.vars, env.isMany v = true ∧
+            env.b.get v = some (.list (rounds.map (fun r => (r.b.get v).getD Sexp.nil)) false) := by
+          intro v hv
+          obtain ⟨g1, g2⟩ := hA v (by simp [hv])
+          obtain ⟨k1, k2⟩ := hsubv v hv
+          obtain ⟨m1, m2⟩ := hvars2 v hv
+          exact ⟨g2 (k2 m1), by rw [g1, k1, m2]⟩
+        have hApre := SVpre.2 env n c fb (fun v hv => hA v (by simp [hv])) (fun x hx => hcm x (by simp [hx]))
+          (fun s hs => hl s (Or.inl hs)) (fun x hx => hdep x (by simp [hx]))
+        have hApost := SVpost.2 env n c fb (fun v hv => hA v (by simp [hv])) (fun x hx => hcm x (by simp [hx]))
+          (fun s hs => hl s (Or.inr (Or.inr (Or.inl hs)))) (fun x hx => hdep x (by simp [hx]))
+        have hMid : mapE (fun x => visit n c env fb x) mids = .ok mids :=
+          mapE_ok_self _ mids (fun x hx => visit_clean c env fb n x (by have := hdep x (by simp [hx]); omega)
+            (hcm x (by simp [hx])))
+        -- the dotted-tail variable
+        obtain ⟨hgr, _⟩ := hA r (by simp)
+        rw [get_env_insert] at hgr
+        simp only [if_true] at hgr
+        have hrvp : rv.isPlain = true := by
+          rw [← hrv]
+          apply restVal_plain
+          intro x hx
+          exact (hcm x (by simp [hx])).2.2.1
+        have hR : mapE (fun x => visit n c env fb x) [Sexp.id r Mark.plain] = .ok [rv] := by
+          cases n with
+          | zero => omega
+          | succ n =>
+              simp only [mapE, visit]
+              rw [substAtom_bound c env r _ hr hgr hrvp]
+        have hAll : mapE (fun x => visit n c env fb x)
+            (pre.map tmpl1 ++ mids ++ (post.map tmpl1 ++ [Sexp.id r Mark.plain])) =
+            .ok (a ++ mids ++ (b ++ [rv])) :=
+          mapE_append _ _ _ _ _ (mapE_append _ _ _ _ _ hApre hMid) (mapE_append _ _ _ _ _ hApost hR)
+        simp only [tmpl1, tmplList_append_simples pre _ hpre, lastIsRest_many_rest, tmplList,
+          tmplList_append_simples post _ hpost]
+        rw [many_visit sc pre sub (post.map tmpl1 ++ [Sexp.id r Mark.plain]) true mids rounds env n c fb hpre hsub
+          hsubE hnd2.1 hrl hrget henv
+          (fun r' hr' v hv hmny => (hA v (by simp [hv])).2 ((hsubv v hv).2 (hmany2 r' hr' v hmny)))
+          (fun m hm' => hnorm m (by simp [hm'])) hallm' (fun m hm' => hcm m (by simp [hm']))
+          (fun s hs => hl s (Or.inr (Or.inl hs))) (fun m hm' => hdep m (by simp [hm'])), hAll]
+        simp only [bindE_ok]
+        have hassoc : a ++ mids ++ (b ++ [rv]) = (a ++ (mids ++ b)) ++ [rv] := by simp [List.append_assoc]
+        have hlen2 : (a ++ (mids ++ (b ++ rem))).length = (a ++ (mids ++ b)).length + rem.length := by
+          simp [List.length_append]; omega
+        rw [hassoc, ← hrv, hlen2, mkList_rest (a ++ (mids ++ b)) rem imp
+          (by simpa [List.append_assoc] using hnf) hremne]
+        simp [List.append_assoc]
 
 
 end SteelVerif.C13
